@@ -21,7 +21,7 @@ C11_JOBS = int(os.environ.get('VERIF_C11_JOBS', '6'))
 
 RULE = ('programs = view expression trees of depth 1..2 (quick) / 1..3 (thorough) over leaves of every static-knowledge kind '
         '(constant shape cs/fx, clipped shape cl/cld/cla, fixed dim fd/fdf/fdh, bounded dim bd, dynamic dy): depth 1 = every operation '
-        'variant (compile-time / clipped / fixed-length run-time / dynamic run-time arguments) x every leaf kind, depth 2..3 = fixed-seed sample; '
+        'variant (compile-time / clipped / fixed-length run-time / dynamic run-time arguments) x every leaf kind, depth 2..3 = fixed-seed sample over the 23 view functions with a Lean transfer function; '
         'instances = every run-time shape admitted by the leaf types when that set is small (all shapes under a clipped bound, all factorisations '
         'of a fixed buffer), VERIF_SEED-sampled shapes for fixed-dim / bounded-dim / dynamic leaves, run-time arguments derived from the instance; '
         'only instances NumPy accepts. non-trivial = the run-time shape of the instance differs from the nominal shape of the program or the program has depth >= 2')
@@ -44,7 +44,9 @@ ASSUMPTIONS = ['which static kind a composed view type gets is decided by C++ me
                'kind combinations the unchanged library cannot compile are excluded (harness/c11_uncompilable.txt)']
 PARTIAL = ['matmul of two operands of CONSTANT shape has no Lean transfer (the type reports fixed_size = product of the result shape and a different '
            'bounded_size = product of the operands\' sizes, a pair the abstract domain cannot hold): those instances are checked against the run-time '
-           'objects and NumPy only; eye/tri/pooling/resize/sliding_window/outer/compress are not generated at all',
+           'objects and NumPy only',
+           'no Lean transfer function (static knowledge and eval result checked against run-time objects and NumPy for every leaf kind, depth 1): '
+           'eye, tri, tril/triu, max_pool2d/avg_pool2d, resize, sliding_window, compress, outer',
            'where_static_sound excludes the operand-type class whereTripled (known finding C11.where-tripled-fixed-size, where_counterexample)',
            'the eval resolver model covers the default resolver with context None and no caller-supplied output (eval.hpp:706-879); the older '
            'resolver used by a bare array::eval(view) (eval.hpp:881-) is not modelled']
